@@ -21,6 +21,9 @@ application does inside that callback:
                     message k in the stream are judged against n
     ("delim", d)    (lines only) set the delimiter to d: the bytes that follow
                     message k's delimiter are split on d
+    ("pauseresume",) pause and resume again before the callback returns, and
+    ("feed",)       receive the next bytes of the stream from inside the callback
+                    (synchronous pipe): neither changes the event sequence
 (the message in whose callback the change is made has been framed completely,
 so every later byte of the stream belongs to a later message and is framed with
 the new values - whether it had already been delivered is a detail of the
